@@ -194,8 +194,13 @@ func propDouble(t *rapid.T) {
 	u2 := gen.Int256(t, ref.N, "u2")
 	pc := gen.Point(t, "P")
 	p := pc.P
-	rel := gen.Sampled([]string{"independent", "independent", "u2P=-u1G", "u2P=u1G", "P=G", "P=-G", "P=O", "u1=0", "u2=0", "both0", "u1=-u2,P=G"}).Draw(t, "rel")
+	rel := gen.Sampled([]string{"independent", "independent", "u2P=-u1G", "u2P=u1G", "P=G", "P=-G", "P=O", "u1=0", "u2=0", "both0", "u1=-u2,P=G", "exceptional-window", "exceptional-window"}).Draw(t, "rel")
 	switch rel {
+	case "exceptional-window":
+		// u2*P plus the part of u1*G already accumulated equals +-(the next fixed-base table entry)
+		var k *big.Int
+		k, u1, u2, rel = gen.ExceptionalDouble(t, "xw")
+		p = ref.BaseMul(k)
 	case "u2P=-u1G", "u2P=u1G":
 		// P = k*G for a known k: u2 = -+u1/k
 		k := gen.NonZero256(t, ref.N, "k")
